@@ -72,5 +72,11 @@ CLAIMS["C07"] = {
     "note": "Trusted: Lean kernel + standard axioms (Mathlib Real analysis); the platform libm sin (used by both Rust and the Lean driver); Python's correctly rounded float() for the bit patterns of decimal literals; the rounding error of the binary64 evaluation is measured, not proved. TDB's forward loop has an early exit: the R theorems are stated for any estimate within 5K of the input, which covers every exit point.",
     "technique": "Lean 4 + Mathlib theorems about the real-arithmetic algorithm (one generic definition shared with the executable Float model); Float model tied bit-for-bit to /repo by executed correspondence; property's closed forms as oracle",
 }
+PROPS["C17"] = P(rule="epochs within +/-10 000 years of 1900 in the seven non-dynamical scales; 5 duration-valued and 22 float-valued accessors; from_mjd/from_jde in six scales, from_unix_seconds/milliseconds/duration; view round trips; MJD/JD/UNIX floats at day, half-day, second and millisecond granularity and random")
+CLAIMS["C17"] = {
+    "text": "Theorems: the constants (MJD of 1900-01-01 = 15020 d, JD = MJD + 2400000.5 d, J2000 = 3155716800 s, UNIX origin = 1970-01-01 from the calendar) are pinned and canonical; every duration-valued view (to_jde_tai/utc/tt_duration, to_mjd_tt_duration, to_tt_since_j2k, to/from UNIX duration) is the elapsed time shifted by exactly that constant for all canonical durations inside the stated margins; UNIX duration round trip is the identity; the per-scale reference dates used by from_mjd/from_jde are whole days 1980-01-06/1999-08-22/2006-01-01. PARTIAL: float-valued accessors and float constructors are executed with hardware floats in the driver (bit-for-bit equal to the implementation on every case) and judged in exact rational arithmetic against 4 ulp (accessors) / 2 ulp of the magnitudes involved + 1 ns (constructors); no kernel theorem about binary64 rounding is claimed here (SoftF64 lemmas are in C18).",
+    "note": "Trusted: Lean kernel + standard axioms; exactness in binary64 of 15020*8.64e13, 2400000.5*8.64e13 and 2415020.5*8.64e13 (odd parts below 2^53; also confirmed by the correspondence run); hardware float evaluation in the Lean driver; the transcription of the accessors.",
+    "technique": "Lean 4 theorems for the duration-valued views; hardware-float executable model tied bit-for-bit by correspondence, exact-rational oracle for the float views",
+}
 ALL = ["C%02d" % i for i in range(1, 21)]
 NOT_CLAIMED = {p: "model and theorems not built yet in this round (planned, see DESIGN.md §9)" for p in ALL if p not in CLAIMS}
